@@ -423,6 +423,12 @@ pub fn hand_rows() -> Vec<(&'static str, Vec<[f32; 4]>)> {
                 [2.90, 1.10, -0.45, 3.55],
             ],
         ),
+        // low-information matrix (every weight within +-0.1): at granularity 0.1 every cell is -1, 0 or 1, so the coarse
+        // threshold sits next to the best score and finer steps gain up to 9 units per row over ten times the coarse score
+        (
+            "lowinfo5",
+            vec![[0.07, -0.03, 0.02, -0.09], [-0.05, 0.08, -0.01, 0.04], [0.03, -0.07, 0.09, -0.02], [-0.08, 0.01, 0.06, -0.04], [0.05, -0.06, -0.03, 0.1]],
+        ),
         // one all-positive and one all-negative row among mixed ones
         ("signrows4", vec![[0.3141, 1.2718, 2.1414, 0.7320], [-0.5772, -2.2360, -0.6931, -1.6180], [1.2020, -0.9159, 0.6457, -0.3010], [0.0794, 1.0986, -0.4342, 0.9459]]),
     ]
